@@ -62,7 +62,7 @@ theorem intFromAscii_sound (I : IntTy) (neg : Bool) (ds : List Nat) (acc v : Int
     simp only [intFromAscii] at h
     by_cases h0 : (neg && !I.signed) = true
     · simp [h0] at h
-    · simp only [h0, if_false] at h
+    · simp only [h0] at h
       by_cases h1 : I.contains (acc * 10) = true
       · simp only [h1, Bool.not_true, Bool.false_eq_true, if_false] at h
         by_cases h2 : I.contains (if neg = true then acc * 10 - ((d - 48 : Nat) : Int) else acc * 10 + ((d - 48 : Nat) : Int)) = true
@@ -114,4 +114,576 @@ theorem intFromAscii_complete (I : IntTy) (neg : Bool) (ds : List Nat) (acc : In
       simp only [hm, hv', Bool.not_true, Bool.false_eq_true, if_false]
       exact ih _ (by simp; omega) (by rw [contains_iff]; exact hfin)
 
+/-! ## Digit-string arithmetic -/
+
+theorem ofDigits_append (a b : List Nat) : ofDigits (a ++ b) = ofDigits a * 10 ^ b.length + ofDigits b := by
+  unfold ofDigits
+  rw [List.foldl_append, ofDigits_foldl]
+  rfl
+
+theorem valOf_append (a b : List Nat) : valOf (a ++ b) = valOf a * 10 ^ b.length + valOf b := by
+  simp [valOf, digitVals, ofDigits_append]
+
+theorem AsciiDigits.tail {d : Nat} {ds : List Nat} (h : AsciiDigits (d :: ds)) : AsciiDigits ds :=
+  fun x hx => h x (List.mem_cons_of_mem _ hx)
+theorem AsciiDigits.head {d : Nat} {ds : List Nat} (h : AsciiDigits (d :: ds)) : 48 ≤ d ∧ d ≤ 57 :=
+  h d (List.mem_cons_self)
+theorem AsciiDigits.take {ds : List Nat} (h : AsciiDigits ds) (k : Nat) : AsciiDigits (ds.take k) :=
+  fun x hx => h x (List.mem_of_mem_take hx)
+theorem AsciiDigits.drop {ds : List Nat} (h : AsciiDigits ds) (k : Nat) : AsciiDigits (ds.drop k) :=
+  fun x hx => h x (List.mem_of_mem_drop hx)
+
+theorem valOf_lt (ds : List Nat) (h : AsciiDigits ds) : valOf ds < 10 ^ ds.length := by
+  induction ds with
+  | nil => simp [valOf_nil]
+  | cons d ds ih =>
+    have := ih h.tail
+    have hd := h.head
+    rw [valOf_cons, List.length_cons, Nat.pow_succ]
+    have : (d - 48) * 10 ^ ds.length ≤ 9 * 10 ^ ds.length := Nat.mul_le_mul_right _ (by omega)
+    omega
+
+theorem all_zero_iff (ds : List Nat) (h : AsciiDigits ds) : ds.all (· == 48) = true ↔ valOf ds = 0 := by
+  induction ds with
+  | nil => simp [valOf_nil]
+  | cons d ds ih =>
+    have hd := h.head
+    have hp : 0 < 10 ^ ds.length := Nat.pow_pos (by decide)
+    rw [valOf_cons, List.all_cons, Bool.and_eq_true, ih h.tail]
+    constructor
+    · rintro ⟨h1, h2⟩
+      have : d = 48 := by simpa using h1
+      subst this; simp [h2]
+    · intro h0
+      have h1 : (d - 48) * 10 ^ ds.length = 0 := by omega
+      have h2 : valOf ds = 0 := by omega
+      have h3 : d - 48 = 0 := by
+        rcases Nat.mul_eq_zero.mp h1 with h | h
+        · exact h
+        · omega
+      refine ⟨?_, h2⟩
+      have : d = 48 := by omega
+      simp [this]
+
+/-! ## Closed forms of `try_from_ascii` and of the zero-pushing continuation -/
+
+theorem sgnVal_zero (neg : Bool) : sgnVal neg 0 = 0 := by cases neg <;> simp [sgnVal]
+theorem sgnVal_mul (neg : Bool) (a b : Nat) : sgnVal neg (a * b) = sgnVal neg a * (b : Int) := by
+  cases neg <;> simp [sgnVal]
+theorem sgnVal_eq_zero_iff (neg : Bool) (a : Nat) : sgnVal neg a = 0 ↔ a = 0 := by
+  cases neg <;> simp [sgnVal]
+
+theorem contains_zero (I : IntTy) : I.contains 0 = true := by
+  rw [contains_iff]; exact ⟨IntTy.min_le_zero I, IntTy.zero_le_max I⟩
+
+/-- `I.contains` is monotone towards zero -/
+theorem contains_of_mul (I : IntTy) (m p : Int) (hp : 1 ≤ p) (h : I.contains (m * p) = true) : I.contains m = true := by
+  rw [contains_iff] at h ⊢
+  have hmin := IntTy.min_le_zero I
+  have hmax := IntTy.zero_le_max I
+  rcases Int.le_total 0 m with hm | hm
+  · have : m ≤ m * p := by nlinarith
+    omega
+  · have : m * p ≤ m := by nlinarith
+    omega
+
+theorem finalVal_zero (neg : Bool) (ds : List Nat) : finalVal neg 0 ds = sgnVal neg (valOf ds) := by
+  simp [finalVal]
+
+/-- `try_from_ascii` from a zero accumulator, admissible sign: the exact value iff in range -/
+theorem intFromAscii_eq (I : IntTy) (neg : Bool) (ds : List Nat) (hsign : ¬ (neg = true ∧ I.signed = false)) :
+    intFromAscii I neg ds 0
+      = if I.contains (sgnVal neg (valOf ds)) then some (sgnVal neg (valOf ds)) else none := by
+  by_cases hc : I.contains (sgnVal neg (valOf ds)) = true
+  · rw [if_pos hc, ← finalVal_zero]
+    exact intFromAscii_complete I neg ds 0 hsign (by cases neg <;> simp) (by rw [finalVal_zero]; exact hc)
+  · rw [if_neg hc]
+    cases hr : intFromAscii I neg ds 0 with
+    | none => rfl
+    | some v =>
+      have := intFromAscii_sound I neg ds 0 v (contains_zero I) hr
+      rw [finalVal_zero] at this
+      rw [this.1] at this
+      exact absurd this.2 hc
+
+theorem pow_ge_one_int (k : Nat) : (1 : Int) ≤ 10 ^ k := by
+  have : (1 : Nat) ≤ 10 ^ k := Nat.one_le_pow _ _ (by decide)
+  exact_mod_cast this
+
+/-- the zeros fed after the digits multiply by `10^k`, checked at every step -/
+theorem intPushZeros_eq (I : IntTy) (neg : Bool) (k : Nat) (acc : Int) (hsign : ¬ (neg = true ∧ I.signed = false))
+    (hacc : I.contains acc = true) :
+    intPushZeros I neg k acc = if I.contains (acc * 10 ^ k) then some (acc * 10 ^ k) else none := by
+  have hns : (neg && !I.signed) = false := by
+    cases hn : neg <;> cases hsg : I.signed <;> simp_all
+  induction k generalizing acc with
+  | zero => simp [intPushZeros, hacc]
+  | succ k ih =>
+    simp only [intPushZeros, hns, Bool.false_eq_true, if_false]
+    by_cases h0 : acc = 0
+    · subst h0; simp [contains_zero]
+    · simp only [h0, if_false]
+      have e : acc * 10 ^ (k + 1) = acc * 10 * 10 ^ k := by ring
+      by_cases hm : I.contains (acc * 10) = true
+      · simp only [hm, Bool.not_true, Bool.false_eq_true, if_false]
+        rw [ih _ hm, e]
+      · have : ¬ I.contains (acc * 10 ^ (k + 1)) = true := by
+          intro h; rw [e] at h
+          exact hm (contains_of_mul I _ _ (pow_ge_one_int k) h)
+        simp [hm, this]
+
+/-! ## The specification and the main equality -/
+
+/-- decimal → integer as the property states it: the exact value, when it is an integer inside the target's range
+    (a negative sign is never admissible for an unsigned target — the property leaves negative zero unspecified;
+    the code says None) -/
+def exactInt (I : IntTy) (neg : Bool) (c : Nat) (e : Int) : Option Int :=
+  if neg && !I.signed then none
+  else if 0 ≤ e then (if I.contains (sgnVal neg (c * 10 ^ e.toNat)) then some (sgnVal neg (c * 10 ^ e.toNat)) else none)
+  else if c % 10 ^ (-e).toNat = 0 then
+    (if I.contains (sgnVal neg (c / 10 ^ (-e).toNat)) then some (sgnVal neg (c / 10 ^ (-e).toNat)) else none)
+  else none
+
+theorem two_pow_128_lt : (2 : Nat) ^ 128 < 10 ^ 39 := by decide
+
+theorem IntTy.max_lt (I : IntTy) (hI : I.bits ≤ 128) : I.max < (10 : Int) ^ 39 := by
+  have h1 : (2 : Nat) ^ I.bits ≤ 2 ^ 128 := Nat.pow_le_pow_right (by decide) hI
+  have h2 : (2 : Nat) ^ (I.bits - 1) ≤ 2 ^ 128 := Nat.pow_le_pow_right (by decide) (by omega)
+  have h3 : ((2 : Nat) ^ 128 : Int) < 10 ^ 39 := by decide
+  have h1' : ((2 ^ I.bits : Nat) : Int) ≤ (2 : Nat) ^ 128 := by exact_mod_cast h1
+  have h2' : ((2 ^ (I.bits - 1) : Nat) : Int) ≤ (2 : Nat) ^ 128 := by exact_mod_cast h2
+  unfold IntTy.max; split <;> omega
+
+theorem IntTy.min_gt (I : IntTy) (hI : I.bits ≤ 128) : -((10 : Int) ^ 39) < I.min := by
+  have h2 : (2 : Nat) ^ (I.bits - 1) ≤ 2 ^ 128 := Nat.pow_le_pow_right (by decide) (by omega)
+  have h3 : ((2 : Nat) ^ 128 : Int) < 10 ^ 39 := by decide
+  have h2' : ((2 ^ (I.bits - 1) : Nat) : Int) ≤ (2 : Nat) ^ 128 := by exact_mod_cast h2
+  unfold IntTy.min; split <;> omega
+
+/-- a non-zero coefficient followed by at least 39 zeros overflows every target of at most 128 bits -/
+theorem not_contains_big (I : IntTy) (hI : I.bits ≤ 128) (neg : Bool) (c k : Nat) (hc : 0 < c) (hk : 39 ≤ k) :
+    I.contains (sgnVal neg (c * 10 ^ k)) = false := by
+  have hmax := IntTy.max_lt I hI
+  have hmin := IntTy.min_gt I hI
+  have h1 : (10 : Nat) ^ 39 ≤ 10 ^ k := Nat.pow_le_pow_right (by decide) hk
+  have h2 : (10 : Nat) ^ 39 ≤ c * 10 ^ k := by nlinarith
+  have h3 : ((10 : Int) ^ 39) ≤ ((c * 10 ^ k : Nat) : Int) := by exact_mod_cast h2
+  cases hcon : I.contains (sgnVal neg (c * 10 ^ k)) with
+  | false => rfl
+  | true =>
+    rw [contains_iff] at hcon
+    cases neg <;> simp only [sgnVal, Bool.false_eq_true, if_false, if_true] at hcon <;> omega
+
+theorem hns_of (I : IntTy) (neg : Bool) (hsign : ¬ (neg = true ∧ I.signed = false)) : (neg && !I.signed) = false := by
+  cases hn : neg <;> cases hsg : I.signed <;> simp_all
+
+theorem intFromAscii_zero (I : IntTy) (neg : Bool) (hsign : ¬ (neg = true ∧ I.signed = false)) :
+    intFromAscii I neg [48] 0 = some 0 := by
+  rw [intFromAscii_eq I neg [48] hsign]
+  have : valOf [48] = 0 := by decide
+  simp [this, sgnVal_zero, contains_zero]
+
+/-- arm `exponent = 0` -/
+theorem arm_zero (I : IntTy) (neg : Bool) (digits : List Nat) (hsign : ¬ (neg = true ∧ I.signed = false)) :
+    intFromAscii I neg digits 0 = exactInt I neg (valOf digits) 0 := by
+  rw [intFromAscii_eq I neg digits hsign]
+  simp [exactInt, hns_of I neg hsign]
+
+/-- arm `exponent > 0`: the digits, then that many zeros -/
+theorem arm_pos (I : IntTy) (neg : Bool) (digits : List Nat) (e : Int) (he : 0 < e)
+    (hsign : ¬ (neg = true ∧ I.signed = false)) :
+    (match intFromAscii I neg digits 0 with
+      | some acc => intPushZeros I neg e.toNat acc
+      | none => none) = exactInt I neg (valOf digits) e := by
+  rw [intFromAscii_eq I neg digits hsign]
+  have e1 : sgnVal neg (valOf digits * 10 ^ e.toNat) = sgnVal neg (valOf digits) * 10 ^ e.toNat := by
+    rw [sgnVal_mul]; push_cast; rfl
+  simp only [exactInt, hns_of I neg hsign, Bool.false_eq_true, if_false, if_pos (Int.le_of_lt he), e1]
+  by_cases hc : I.contains (sgnVal neg (valOf digits)) = true
+  · simp only [if_pos hc]
+    rw [intPushZeros_eq I neg _ _ hsign hc]
+  · have : ¬ I.contains (sgnVal neg (valOf digits) * 10 ^ e.toNat) = true :=
+      fun h => hc (contains_of_mul I _ _ (pow_ge_one_int _) h)
+    simp only [if_neg hc, if_neg this]
+
+/-- last arm, finite, exponent at least 39 (in particular beyond `i32`) -/
+theorem arm_pos_big (I : IntTy) (hI : I.bits ≤ 128) (neg : Bool) (digits : List Nat) (e : Int) (he : 39 ≤ e)
+    (hds : AsciiDigits digits) (hsign : ¬ (neg = true ∧ I.signed = false)) :
+    (if (true && digits.all (· == 48)) = true then intFromAscii I neg [48] 0 else none)
+      = exactInt I neg (valOf digits) e := by
+  simp only [exactInt, hns_of I neg hsign, Bool.false_eq_true, if_false, if_pos (show (0 : Int) ≤ e by omega),
+    Bool.true_and, all_zero_iff digits hds, intFromAscii_zero I neg hsign]
+  by_cases h0 : valOf digits = 0
+  · simp [h0, sgnVal_zero, contains_zero]
+  · have := not_contains_big I hI neg (valOf digits) e.toNat (by omega) (by omega)
+    simp [h0, this]
+
+/-- last arm, finite, negative exponent of magnitude at least the number of digits -/
+theorem arm_neg_big (I : IntTy) (neg : Bool) (digits : List Nat) (e : Int) (he : e < 0)
+    (hlen : digits.length ≤ e.natAbs)
+    (hds : AsciiDigits digits) (hsign : ¬ (neg = true ∧ I.signed = false)) :
+    (if (true && digits.all (· == 48)) = true then intFromAscii I neg [48] 0 else none)
+      = exactInt I neg (valOf digits) e := by
+  simp only [exactInt, hns_of I neg hsign, Bool.false_eq_true, if_false, if_neg (show ¬ (0 : Int) ≤ e by omega),
+    Bool.true_and, all_zero_iff digits hds, intFromAscii_zero I neg hsign]
+  have hk : (-e).toNat = e.natAbs := by omega
+  rw [hk]
+  have hlt : valOf digits < 10 ^ e.natAbs :=
+    Nat.lt_of_lt_of_le (valOf_lt digits hds) (Nat.pow_le_pow_right (by decide) hlen)
+  rw [Nat.mod_eq_of_lt hlt, Nat.div_eq_of_lt hlt]
+  by_cases h0 : valOf digits = 0
+  · simp [h0, sgnVal_zero, contains_zero]
+  · simp [h0]
+
+/-- arm `−precision < exponent < 0`: the leading digits, provided the dropped ones are all `'0'` -/
+theorem arm_neg_small (I : IntTy) (neg : Bool) (digits : List Nat) (e : Int) (he : e < 0)
+    (hlen : e.natAbs < digits.length)
+    (hds : AsciiDigits digits) (hsign : ¬ (neg = true ∧ I.signed = false)) :
+    (match intFromAscii I neg (digits.take (digits.length - e.natAbs)) 0 with
+      | none => none
+      | some i => if (digits.drop (digits.length - e.natAbs)).all (· == 48) = true then some i else none)
+      = exactInt I neg (valOf digits) e := by
+  have hk : (-e).toNat = e.natAbs := by omega
+  simp only [exactInt, hns_of I neg hsign, Bool.false_eq_true, if_false, if_neg (show ¬ (0 : Int) ≤ e by omega), hk]
+  rw [intFromAscii_eq I neg _ hsign]
+  simp only [all_zero_iff _ (hds.drop _)]
+  have hsplit := valOf_append (digits.take (digits.length - e.natAbs)) (digits.drop (digits.length - e.natAbs))
+  rw [List.take_append_drop] at hsplit
+  have hdl : (digits.drop (digits.length - e.natAbs)).length = e.natAbs := by
+    rw [List.length_drop]; omega
+  have hlt := valOf_lt _ (hds.drop (digits.length - e.natAbs))
+  rw [hdl] at hsplit hlt
+  have hpos : 0 < 10 ^ e.natAbs := Nat.pow_pos (by decide)
+  have hmod : valOf digits % 10 ^ e.natAbs = valOf (digits.drop (digits.length - e.natAbs)) := by
+    rw [hsplit, Nat.mul_comm, Nat.mul_add_mod, Nat.mod_eq_of_lt hlt]
+  have hdiv : valOf digits / 10 ^ e.natAbs = valOf (digits.take (digits.length - e.natAbs)) := by
+    rw [hsplit, Nat.mul_comm, Nat.mul_add_div hpos, Nat.div_eq_of_lt hlt, Nat.add_zero]
+  rw [hmod, hdiv]
+  by_cases hc : I.contains (sgnVal neg (valOf (digits.take (digits.length - e.natAbs)))) = true
+  · simp only [if_pos hc]
+  · simp only [if_neg hc]; split <;> rfl
+
+/-- **`decimal_to_int` is the exact conversion** (no hypothesis on the exponent is needed) -/
+theorem toIntCore_eq' (T : Ty) (I : IntTy) (neg : Bool) (digits : List Nat) (e : Int)
+    (hds : AsciiDigits digits) (hI : I.bits ≤ 128) (hp : digits.length < 2 ^ 31) :
+    toIntCore T I neg digits e digits.length true = exactInt I neg (valOf digits) e := by
+  by_cases hs : (neg && !I.signed) = true
+  · simp [toIntCore, exactInt, hs]
+  · have hns : (neg && !I.signed) = false := by simpa using hs
+    have hsign : ¬ (neg = true ∧ I.signed = false) := by
+      cases hn : neg <;> cases hsg : I.signed <;> simp_all
+    unfold toIntCore
+    simp only [hns, Bool.false_eq_true, if_false]
+    cases hb : (T.expIsI32 || (decide (i32Min ≤ e) && decide (e ≤ i32Max)))
+    · simp only [Bool.false_and, Bool.false_eq_true, if_false]
+      have hr : e < i32Min ∨ i32Max < e := by
+        simp only [Bool.or_eq_false_iff, Bool.and_eq_false_iff, decide_eq_false_iff_not] at hb
+        omega
+      unfold i32Min i32Max at hr
+      rcases hr with h | h
+      · exact arm_neg_big I neg digits e (by omega) (by omega) hds hsign
+      · exact arm_pos_big I hI neg digits e (by omega) hds hsign
+    · simp only [Bool.true_and, decide_eq_true_eq]
+      rcases Int.lt_trichotomy e 0 with h | h | h
+      · rw [if_neg (by omega), if_neg (by omega)]
+        by_cases hl : e.natAbs < digits.length
+        · rw [if_pos hl]; exact arm_neg_small I neg digits e h hl hds hsign
+        · rw [if_neg hl]; exact arm_neg_big I neg digits e h (by omega) hds hsign
+      · subst h; rw [if_pos rfl]; exact arm_zero I neg digits hsign
+      · rw [if_neg (by omega), if_pos h]; exact arm_pos I neg digits e h hsign
+
+theorem toIntCore_eq (T : Ty) (I : IntTy) (neg : Bool) (digits : List Nat) (e : Int)
+    (hds : AsciiDigits digits) (_hne : digits ≠ []) (hI : I.bits ≤ 128) (hp : digits.length < 2 ^ 31)
+    (_hT : T.expIsI32 = true → i32Min ≤ e ∧ e ≤ i32Max) :
+    toIntCore T I neg digits e digits.length true = exactInt I neg (valOf digits) e :=
+  toIntCore_eq' T I neg digits e hds hI hp
+
+/-! ## Soundness and completeness (C11) -/
+
+/-- `v` is exactly (−1)^neg · c · 10^e -/
+def IsValue (neg : Bool) (c : Nat) (e : Int) (v : Int) : Prop :=
+  if 0 ≤ e then v = sgnVal neg (c * 10 ^ e.toNat) else v * 10 ^ (-e).toNat = sgnVal neg c
+
+instance (neg : Bool) (c : Nat) (e : Int) (v : Int) : Decidable (IsValue neg c e v) := by
+  unfold IsValue; infer_instance
+
+theorem isValue_neg_iff (neg : Bool) (c P : Nat) (hP : 0 < P) (v : Int) :
+    v * (P : Int) = sgnVal neg c ↔ c % P = 0 ∧ v = sgnVal neg (c / P) := by
+  constructor
+  · intro h
+    have hd : (P : Int) ∣ (c : Int) := by
+      have : (P : Int) ∣ sgnVal neg c := ⟨v, by rw [← h, Int.mul_comm]⟩
+      cases neg
+      · simpa [sgnVal] using this
+      · simpa [sgnVal] using this
+    obtain ⟨q, rfl⟩ := Int.natCast_dvd_natCast.mp hd
+    refine ⟨Nat.mul_mod_right _ _, ?_⟩
+    rw [Nat.mul_div_cancel_left _ hP]
+    have hP' : (P : Int) ≠ 0 := by omega
+    apply Int.eq_of_mul_eq_mul_right hP'
+    rw [h, Nat.mul_comm, sgnVal_mul]
+  · rintro ⟨hm, rfl⟩
+    rw [← sgnVal_mul, Nat.div_mul_cancel (Nat.dvd_of_mod_eq_zero hm)]
+
+theorem cast_ten_pow (k : Nat) : ((10 ^ k : Nat) : Int) = 10 ^ k := by norm_cast
+
+/-- the specification returns `v` exactly when `v` is the value, is in range, and the sign is admissible -/
+theorem exactInt_eq_some_iff (I : IntTy) (neg : Bool) (c : Nat) (e : Int) (v : Int) :
+    exactInt I neg c e = some v ↔
+      (IsValue neg c e v ∧ I.contains v = true ∧ ¬ (neg = true ∧ I.signed = false)) := by
+  by_cases hs : (neg && !I.signed) = true
+  · have : neg = true ∧ I.signed = false := by simpa using hs
+    simp [exactInt, this]
+  · have hns : (neg && !I.signed) = false := by simpa using hs
+    have hsign : ¬ (neg = true ∧ I.signed = false) := by
+      cases hn : neg <;> cases hsg : I.signed <;> simp_all
+    simp only [exactInt, hns, Bool.false_eq_true, if_false, IsValue, hsign, not_false_eq_true, and_true]
+    by_cases he : 0 ≤ e
+    · simp only [if_pos he]
+      constructor
+      · intro h
+        split at h
+        · rename_i hc
+          have : sgnVal neg (c * 10 ^ e.toNat) = v := by simpa using h
+          subst this; exact ⟨rfl, hc⟩
+        · exact absurd h (by simp)
+      · rintro ⟨rfl, hc⟩
+        rw [if_pos hc]
+    · simp only [if_neg he]
+      rw [← cast_ten_pow, isValue_neg_iff neg c _ (Nat.pow_pos (by decide)) v]
+      constructor
+      · intro h
+        split at h
+        · rename_i hm
+          split at h
+          · rename_i hc
+            have : sgnVal neg (c / 10 ^ (-e).toNat) = v := by simpa using h
+            subst this; exact ⟨⟨hm, rfl⟩, hc⟩
+          · exact absurd h (by simp)
+        · exact absurd h (by simp)
+      · rintro ⟨⟨hm, rfl⟩, hc⟩
+        rw [if_pos hm, if_pos hc]
+
+/-- C11 never lies -/
+theorem C11_sound_core (T : Ty) (I : IntTy) (neg : Bool) (digits : List Nat) (e : Int)
+    (hds : AsciiDigits digits) (hne : digits ≠ []) (hI : I.bits ≤ 128) (hp : digits.length < 2 ^ 31)
+    (hT : T.expIsI32 = true → i32Min ≤ e ∧ e ≤ i32Max)
+    (v : Int) (h : toIntCore T I neg digits e digits.length true = some v) :
+    IsValue neg (valOf digits) e v ∧ I.contains v = true := by
+  rw [toIntCore_eq T I neg digits e hds hne hI hp hT, exactInt_eq_some_iff] at h
+  exact ⟨h.1, h.2.1⟩
+
+/-- C11 finds every in-range integer, whatever cohort member encodes it (17e1, 170e-1, zero with any exponent) -/
+theorem C11_complete_core (T : Ty) (I : IntTy) (neg : Bool) (digits : List Nat) (e : Int)
+    (hds : AsciiDigits digits) (hne : digits ≠ []) (hI : I.bits ≤ 128) (hp : digits.length < 2 ^ 31)
+    (hT : T.expIsI32 = true → i32Min ≤ e ∧ e ≤ i32Max)
+    (v : Int) (hv : IsValue neg (valOf digits) e v) (hr : I.contains v = true)
+    (hs : ¬ (neg = true ∧ I.signed = false)) :
+    toIntCore T I neg digits e digits.length true = some v := by
+  rw [toIntCore_eq T I neg digits e hds hne hI hp hT, exactInt_eq_some_iff]
+  exact ⟨hv, hr, hs⟩
+
+/-- the answer is `None` exactly when no in-range integer with an admissible sign is the value -/
+theorem C11_none_core (T : Ty) (I : IntTy) (neg : Bool) (digits : List Nat) (e : Int)
+    (hds : AsciiDigits digits) (hne : digits ≠ []) (hI : I.bits ≤ 128) (hp : digits.length < 2 ^ 31)
+    (hT : T.expIsI32 = true → i32Min ≤ e ∧ e ≤ i32Max) :
+    toIntCore T I neg digits e digits.length true = none ↔
+      ∀ v, ¬ (IsValue neg (valOf digits) e v ∧ I.contains v = true ∧ ¬ (neg = true ∧ I.signed = false)) := by
+  rw [toIntCore_eq T I neg digits e hds hne hI hp hT]
+  constructor
+  · intro h v hv
+    rw [← exactInt_eq_some_iff, h] at hv
+    exact absurd hv (by simp)
+  · intro h
+    cases hx : exactInt I neg (valOf digits) e with
+    | none => rfl
+    | some v => exact absurd ((exactInt_eq_some_iff _ _ _ _ _).mp hx) (h v)
+
+/-! ## Non-finite patterns -/
+
+/-- non-finite patterns: decoded through the finite path they have a most significant digit 8 or 9 and an exponent above the
+    finite range, hence many trailing zeros — every target of at most 128 bits overflows; beyond i32 the last arm says None.
+    (The `precision` argument is irrelevant here, so it is universally quantified.) -/
+theorem toIntCore_nonfinite' (T : Ty) (I : IntTy) (neg : Bool) (digits : List Nat) (e : Int) (precision : Nat)
+    (hI : I.bits ≤ 128)
+    (hmsd : ∃ d rest, digits = d :: rest ∧ d ≥ 56) (he : e ≥ 39) :
+    toIntCore T I neg digits e precision false = none := by
+  by_cases hs : (neg && !I.signed) = true
+  · simp [toIntCore, hs]
+  · have hns : (neg && !I.signed) = false := by simpa using hs
+    have hsign : ¬ (neg = true ∧ I.signed = false) := by
+      cases hn : neg <;> cases hsg : I.signed <;> simp_all
+    have hpos : 0 < valOf digits := by
+      obtain ⟨d, rest, rfl, hd⟩ := hmsd
+      rw [valOf_cons]
+      have : 0 < 10 ^ rest.length := Nat.pow_pos (by decide)
+      have : 8 * 10 ^ rest.length ≤ (d - 48) * 10 ^ rest.length := Nat.mul_le_mul_right _ (by omega)
+      omega
+    unfold toIntCore
+    simp only [hns, Bool.false_eq_true, if_false]
+    cases hb : (T.expIsI32 || (decide (i32Min ≤ e) && decide (e ≤ i32Max)))
+    · simp
+    · simp only [Bool.true_and, decide_eq_true_eq]
+      rw [if_neg (by omega), if_pos (by omega)]
+      refine (arm_pos I neg digits e (by omega) hsign).trans ?_
+      have := not_contains_big I hI neg (valOf digits) e.toNat hpos (by omega)
+      simp [exactInt, hns, this, show (0 : Int) ≤ e by omega]
+
+theorem toIntCore_nonfinite (T : Ty) (I : IntTy) (neg : Bool) (digits : List Nat) (e : Int)
+    (_hds : AsciiDigits digits) (hI : I.bits ≤ 128)
+    (hmsd : ∃ d rest, digits = d :: rest ∧ d ≥ 56) (he : e ≥ 40) :
+    toIntCore T I neg digits e digits.length false = none :=
+  toIntCore_nonfinite' T I neg digits e digits.length hI hmsd (by omega)
+
+/-! ## The run-time judgement agrees with the specification -/
+
+theorem sgn_mul_eq (s : Bool) (n : Nat) : (if s then -1 else 1) * (n : Int) = sgnVal s n := by
+  cases s <;> simp [sgnVal]
+
+theorem lt_pow_digits10 (c : Nat) : c < 10 ^ digits10 c := by
+  unfold digits10
+  exact (Nat.length_toDigits_le_iff (b := 10) (by decide) Nat.length_toDigits_pos).mp (Nat.le_refl _)
+
+theorem exactInt_zero (I : IntTy) (neg : Bool) (e : Int) (hsign : ¬ (neg = true ∧ I.signed = false)) :
+    exactInt I neg 0 e = some 0 := by
+  rw [exactInt_eq_some_iff]
+  refine ⟨?_, contains_zero I, hsign⟩
+  unfold IsValue; split <;> simp [sgnVal_zero]
+
+/-- the judgement used at run time (`Spec.intValue` with its cut-offs at 41 zeros and at `digits10 c`), filtered by
+    the target's range and sign rule, is the exact specification for every target of at most 128 bits -/
+theorem intValue_exact (I : IntTy) (hI : I.bits ≤ 128) (neg : Bool) (c : Nat) (e : Int) :
+    (match Spec.intValue neg c e with
+      | some v => (if I.contains v ∧ ¬ (neg = true ∧ I.signed = false) then some v else none)
+      | none => none)
+      = exactInt I neg c e := by
+  by_cases hs : (neg && !I.signed) = true
+  · have h1 : neg = true ∧ I.signed = false := by simpa using hs
+    have h2 : exactInt I neg c e = none := by simp [exactInt, h1]
+    rw [h2]
+    cases Spec.intValue neg c e <;> simp [h1]
+  · have hns : (neg && !I.signed) = false := by simpa using hs
+    have hsign : ¬ (neg = true ∧ I.signed = false) := by
+      cases hn : neg <;> cases hsg : I.signed <;> simp_all
+    by_cases hc : c = 0
+    · subst hc
+      rw [exactInt_zero I neg e hsign]
+      simp [Spec.intValue, contains_zero, hsign]
+    · unfold Spec.intValue
+      simp only [hc, if_false, ge_iff_le, gt_iff_lt, sgn_mul_eq, hsign, not_false_eq_true, and_true]
+      by_cases he : 0 ≤ e
+      · simp only [if_pos he, exactInt, hns, Bool.false_eq_true, if_false]
+        by_cases h41 : 41 < e
+        · have := not_contains_big I hI neg c e.toNat (by omega) (by omega)
+          simp [h41, this]
+        · simp only [if_neg h41]
+      · simp only [if_neg he, exactInt, hns, Bool.false_eq_true, if_false]
+        by_cases hk : digits10 c < (-e).toNat
+        · have hlt : c < 10 ^ (-e).toNat :=
+            Nat.lt_of_lt_of_le (lt_pow_digits10 c) (Nat.pow_le_pow_right (by decide) (Nat.le_of_lt hk))
+          simp [hk, Nat.mod_eq_of_lt hlt, hc]
+        · simp only [if_neg hk]
+          by_cases hm : c % 10 ^ (-e).toNat = 0
+          · simp only [if_pos hm]
+          · simp only [if_neg hm]
+
+/-! ## C10, "converting back": the digits of an in-range integer with exponent 0 give that integer -/
+
+theorem C10_back_core (T : Ty) (I : IntTy) (v : Int) (digits : List Nat)
+    (hds : AsciiDigits digits) (hI : I.bits ≤ 128) (hp : digits.length < 2 ^ 31)
+    (hval : valOf digits = v.natAbs) (hr : I.contains v = true) :
+    toIntCore T I (decide (v < 0)) digits 0 digits.length true = some v := by
+  rw [toIntCore_eq' T I _ digits 0 hds hI hp, exactInt_eq_some_iff]
+  refine ⟨?_, hr, ?_⟩
+  · simp only [IsValue, Int.le_refl, if_true, Int.toNat_zero, Nat.pow_zero, Nat.mul_one, hval, sgnVal]
+    by_cases h : v < 0
+    · simp only [h, decide_true, if_true]; omega
+    · simp only [h, decide_false, Bool.false_eq_true, if_false]; omega
+  · rintro ⟨h1, h2⟩
+    rw [contains_iff] at hr
+    have : I.min = 0 := by simp [IntTy.min, h2]
+    have h1 : v < 0 := by simpa using h1
+    omega
+
+/-! ## Bridge to the buffer-level `toInt` (the facts about the decoded digits are supplied by the decoding package) -/
+
+theorem toInt_eq_exactInt (T : Ty) (b : Buf) (I : IntTy)
+    (hfin : isFinite b = true)
+    (hds : AsciiDigits (allDigits b (unbiasedExponent b).2))
+    (hlen : (allDigits b (unbiasedExponent b).2).length = b.precision)
+    (hI : I.bits ≤ 128) (hp : b.precision < 2 ^ 31) :
+    toInt T b I = exactInt I (isSignNegative b) (valOf (allDigits b (unbiasedExponent b).2)) (unbiasedExponent b).1 := by
+  unfold toInt
+  simp only [hfin]
+  rw [← hlen]
+  exact toIntCore_eq' T I _ _ _ hds hI (by rw [hlen]; exact hp)
+
+theorem toInt_nonfinite (T : Ty) (b : Buf) (I : IntTy)
+    (hfin : isFinite b = false) (hI : I.bits ≤ 128)
+    (hmsd : (unbiasedExponent b).2 ≥ 8) (he : (unbiasedExponent b).1 ≥ 39) :
+    toInt T b I = none := by
+  unfold toInt
+  simp only [hfin]
+  exact toIntCore_nonfinite' T I _ _ _ _ hI ⟨_, _, rfl, by omega⟩ he
+
+/-! ## Concrete instances: the hypotheses of each main theorem are satisfiable by real inputs -/
+
+/-- `-0001200E-1` (decimal32, 7 digits) into `i8` is `-120` -/
+example : toIntCore .b32 ⟨true, 8⟩ true [48, 48, 48, 49, 50, 48, 48] (-1) 7 true = some (-120) :=
+  (toIntCore_eq .b32 ⟨true, 8⟩ true [48, 48, 48, 49, 50, 48, 48] (-1) (by unfold AsciiDigits; decide) (by decide)
+    (by decide) (by decide) (by intro _; decide)).trans (by decide)
+
+/-- `0001205E-1` is not an integer: `None` -/
+example : toIntCore .b32 ⟨true, 8⟩ false [48, 48, 48, 49, 50, 48, 53] (-1) 7 true = none :=
+  (toIntCore_eq .b32 ⟨true, 8⟩ false [48, 48, 48, 49, 50, 48, 53] (-1) (by unfold AsciiDigits; decide) (by decide)
+    (by decide) (by decide) (by intro _; decide)).trans (by decide)
+
+/-- soundness instance: whatever `0000017E1` into `u8` answers is the value 170, in range -/
+example (v : Int) (h : toIntCore .b32 ⟨false, 8⟩ false [48, 48, 48, 48, 48, 49, 55] 1 7 true = some v) :
+    IsValue false (valOf [48, 48, 48, 48, 48, 49, 55]) 1 v ∧ (⟨false, 8⟩ : IntTy).contains v = true :=
+  C11_sound_core .b32 ⟨false, 8⟩ false [48, 48, 48, 48, 48, 49, 55] 1 (by unfold AsciiDigits; decide) (by decide)
+    (by decide) (by decide) (by intro _; decide) v h
+
+/-- completeness instance: the cohort member `0001700E-1` of 170 is found for `u8` -/
+example : toIntCore .b32 ⟨false, 8⟩ false [48, 48, 48, 49, 55, 48, 48] (-1) 7 true = some 170 :=
+  C11_complete_core .b32 ⟨false, 8⟩ false [48, 48, 48, 49, 55, 48, 48] (-1) (by unfold AsciiDigits; decide) (by decide)
+    (by decide) (by decide) (by intro _; decide) 170 (by decide) (by decide) (by decide)
+
+/-- completeness instance for the arbitrary-precision type with an exponent outside `i32`: zero is still zero -/
+example : toIntCore .big ⟨true, 128⟩ true [48, 48, 48, 48, 48, 48, 48] (-5000000000) 7 true = some 0 :=
+  C11_complete_core .big ⟨true, 128⟩ true [48, 48, 48, 48, 48, 48, 48] (-5000000000) (by unfold AsciiDigits; decide)
+    (by decide) (by decide) (by decide) (by intro h; exact absurd h (by decide)) 0
+    (by unfold IsValue; rw [if_neg (by decide), Int.zero_mul]; decide) (by decide) (by decide)
+
+/-- non-finite instance: the decimal32 infinity pattern read through the finite path (msd `8`, exponent 96−101+… ≥ 40) -/
+example : toIntCore .b32 ⟨false, 128⟩ false [56, 48, 48, 48, 48, 48, 48] 91 7 false = none :=
+  toIntCore_nonfinite .b32 ⟨false, 128⟩ false [56, 48, 48, 48, 48, 48, 48] 91 (by unfold AsciiDigits; decide) (by decide)
+    ⟨56, [48, 48, 48, 48, 48, 48], rfl, by decide⟩ (by decide)
+
+/-- judgement instance: `intValue` on 1200·10⁻² filtered for `i8` is the specification's `some 12` -/
+example : exactInt ⟨true, 8⟩ false 1200 (-2) = some 12 :=
+  (intValue_exact ⟨true, 8⟩ (by decide) false 1200 (-2)).symm.trans (by decide)
+
+/-- converting back instance: the digits `0000300` of 300 give 300 for `u16` -/
+example : toIntCore .b32 ⟨false, 16⟩ (decide ((300 : Int) < 0)) [48, 48, 48, 48, 51, 48, 48] 0 7 true = some 300 :=
+  C10_back_core .b32 ⟨false, 16⟩ 300 [48, 48, 48, 48, 51, 48, 48] (by unfold AsciiDigits; decide) (by decide) (by decide)
+    (by decide) (by decide)
+
 end Decstr.Proofs
+
+#print axioms Decstr.Proofs.intFromAscii_sound
+#print axioms Decstr.Proofs.intFromAscii_complete
+#print axioms Decstr.Proofs.intFromAscii_eq
+#print axioms Decstr.Proofs.intPushZeros_eq
+#print axioms Decstr.Proofs.toIntCore_eq'
+#print axioms Decstr.Proofs.toIntCore_eq
+#print axioms Decstr.Proofs.exactInt_eq_some_iff
+#print axioms Decstr.Proofs.C11_sound_core
+#print axioms Decstr.Proofs.C11_complete_core
+#print axioms Decstr.Proofs.C11_none_core
+#print axioms Decstr.Proofs.toIntCore_nonfinite'
+#print axioms Decstr.Proofs.toIntCore_nonfinite
+#print axioms Decstr.Proofs.intValue_exact
+#print axioms Decstr.Proofs.C10_back_core
+#print axioms Decstr.Proofs.toInt_eq_exactInt
+#print axioms Decstr.Proofs.toInt_nonfinite
